@@ -173,6 +173,7 @@ struct Cfg {
     curve: Option<f64>, // Sim::set_message_latency_curve (lambda of the exponential distribution)
     ipv6: bool,
     runtime_fail: bool, // the run may call the runtime fail-rate setters
+    reg: Vec<usize>,    // registration order (hosts are numbered in address order)
 }
 
 fn pair(a: usize, b: usize) -> (usize, usize) {
@@ -211,12 +212,16 @@ impl<'a> Run<'a> {
         }));
         let mut notifies = vec![Rc::new(Notify::new())];
         let mut ip2h = BTreeMap::new();
+        // addresses are handed out at the first lookup: h1 < h2 < ... in address order,
+        // whatever the registration order is
         for h in 1..=cfg.n {
-            let nt = Rc::new(Notify::new());
-            notifies.push(nt.clone());
+            ip2h.insert(sim.lookup(hname(h)).to_string(), h);
+            notifies.push(Rc::new(Notify::new()));
+        }
+        for &h in &cfg.reg {
+            let nt = notifies[h].clone();
             let sh = shared.clone();
             sim.host(hname(h), move || puppet(h, sh.clone(), nt.clone()));
-            ip2h.insert(sim.lookup(hname(h)).to_string(), h);
         }
         // warm-up step: every puppet binds its socket and parks on its Notify
         sim.step().expect("warm-up step");
@@ -695,6 +700,13 @@ fn replay_one(beh: &[Value], cfg: &Cfg, full: bool) -> ReplayOut {
     ReplayOut { divergence, trace, nontrivial: has_ctl && has_recv }
 }
 
+fn parse_reg(args: &[String], n: usize) -> Vec<usize> {
+    match util::arg(args, "reg") {
+        Some(s) => s.split(',').map(|x| x.trim().parse().expect("reg")).collect(),
+        None => (1..=n).collect(),
+    }
+}
+
 fn main_replay(args: &[String]) {
     let inp = util::arg(args, "in").expect("in=");
     let out = util::arg(args, "out").expect("out=");
@@ -711,6 +723,7 @@ fn main_replay(args: &[String]) {
         curve: None,
         ipv6: false,
         runtime_fail: false,
+        reg: parse_reg(args, util::arg_u64(args, "n", 2) as usize),
     };
     let text = std::fs::read_to_string(&inp).expect("read behaviours");
     let mut total = 0u64;
@@ -799,6 +812,7 @@ fn main_random(args: &[String]) {
                 curve: if rng.random_bool(0.5) { Some([0.2, 1.0, 20.0][rng.random_range(0..3)]) } else { None },
                 ipv6: rng.random_bool(0.3),
                 runtime_fail: fail_on && rng.random_bool(0.5),
+                reg: parse_reg(args, n),
             };
             let runtime_fail = cfg.runtime_fail;
             let mut run = Run::new(&cfg);
